@@ -180,6 +180,9 @@ func loadProgView(root string, bc BuildConfig, inline bool) (*Prog, error) {
 		if err := P.inlineUnknownHelpers(); err != nil {
 			return nil, err
 		}
+		if os.Getenv("SLUGCHECK_NOINLINE") == "" {
+			P.foldDefaultZeroFields()
+		}
 	}
 	if want := os.Getenv("SLUGCHECK_DUMPFN"); want != "" {
 		for _, l := range inlineLog {
@@ -464,6 +467,15 @@ func constCond(v ssa.Value) (val, known bool) {
 	case *ssa.BinOp:
 		a, ok1 := x.X.(*ssa.Const)
 		b, ok2 := x.Y.(*ssa.Const)
+		if ok1 && ok2 && a.Value == nil && b.Value == nil && a.IsNil() && b.IsNil() {
+			// nil against nil (a callback or writer that nothing sets)
+			switch x.Op {
+			case token.EQL:
+				return true, true
+			case token.NEQ:
+				return false, true
+			}
+		}
 		if !ok1 || !ok2 || a.Value == nil || b.Value == nil || a.Value.Kind() != b.Value.Kind() {
 			return false, false
 		}
